@@ -1724,6 +1724,14 @@ def setitem_array(out_name, array, indices, value):
         indices, array_shape
     )
 
+    # Like NumPy, ignore the leading length-1 dimensions that the value has
+    # in excess of the selection: x[1, :] = v with v.shape == (1, n)
+    n_extra = value_ndim - len(implied_shape)
+    if n_extra > 0 and value_shape[:n_extra] == (1,) * n_extra:
+        value = value.reshape(value_shape[n_extra:])
+        value_shape = value.shape
+        value_ndim = len(value_shape)
+
     # ``reverse`` holds positions of array dimensions; below it addresses
     # dimensions of ``implied_shape`` / the assignment value, to which
     # dimensions with an integer index do not contribute.
